@@ -14,15 +14,16 @@ from vf import probes
 ID = 'C13'
 LEVEL = 'exploration'
 RULE = ('callable kinds (function, lambda, builtin sum, method descriptor str.split, slot wrapper dict.__init__, method-wrapper {}.__init__, callable '
-        'instance, functools.partial) and class shapes (__init__, __new__, both, neither, custom '
+        'instance, functools.partial, function under 1-2 functools.wraps-style decorators, functools.lru_cache wrapper) and class shapes (__init__, __new__, both, neither, custom '
         'metaclass with __call__, __slots__, collections.namedtuple, typing.NamedTuple, ABC subclass, class with registered methods, class holding a '
-        'registered plain function as attribute) x {configurable, '
+        'registered plain function as attribute, __init__/__new__ under a wraps-style decorator, constructor inherited from a @gin.configurable base) '
+        'x optional valid allow/deny list x {configurable, '
         'register, external_configurable, config text under dynamic registration} x decorator/call form x name/module overrides x access path (returned '
-        'object, original object, selector, scoped selector, @reference, scoped @reference); oracles: original untouched and direct calls receive nothing '
+        'object, original object (also looked up inside an active scope), selector, scoped selector, @reference, scoped @reference); oracles: original untouched and direct calls receive nothing '
         '(register/external/dynamic; re-checked after the registry versions were used and inside an active scope), the '
         'registry version receives bindings (registered methods of a class through its instances), metadata/signature preserved, every class version '
         '(scoped ones too) is a subclass with the same name/module/doc, instance/type identity, pickle round trip whenever the original '
-        'pickles, rejected registrations (5 kinds x function/class/class with registered methods x 3 APIs, outside and inside interactive mode) leave '
+        'pickles, rejected registrations (5 kinds x function/class/class with registered methods/decorated function/class with decorated or inherited-configurable constructor x 3 APIs, outside and inside interactive mode) leave '
         'the registry and the target unchanged, re-registration (function or class, 3 APIs) only inside interactive mode (block exit by return, '
         'Exception, KeyboardInterrupt, SystemExit, GeneratorExit). distinct = (kind, api, form, overrides, access path)')
 TIERS = {
@@ -31,17 +32,22 @@ TIERS = {
 }
 KINDS = ['function', 'lambda', 'builtin', 'callable-instance', 'partial', 'cls-init', 'cls-new', 'cls-both', 'cls-neither', 'cls-meta', 'cls-slots',
          'cls-namedtuple', 'cls-typing-namedtuple', 'cls-abc', 'cls-methods', 'cls-final', 'cls-meta-kwargs',
-         'method-descriptor', 'wrapper-descriptor', 'method-wrapper', 'cls-helper-attr']
+         'method-descriptor', 'wrapper-descriptor', 'method-wrapper', 'cls-helper-attr',
+         # shapes whose function (or construction function) is itself the product of a functools.wraps-style decorator, i.e. carries `__wrapped__`
+         # and a (*args, **kwargs) signature of its own; and a class that inherits its constructor from a @gin.configurable base class
+         'function-wrapped', 'lru-cache', 'cls-init-wrapped', 'cls-new-wrapped', 'cls-inherits-configurable']
+WRAPPED_KINDS = ('function-wrapped', 'lru-cache', 'cls-init-wrapped', 'cls-new-wrapped', 'cls-inherits-configurable')
 # kinds whose original carries no usable __module__ / __name__ of its own: registered under an explicit name (and module)
 NAMELESS_KINDS = ('builtin', 'partial', 'callable-instance', 'method-descriptor', 'wrapper-descriptor', 'method-wrapper')
 UNSUBCLASSABLE = ('cls-final', 'cls-meta-kwargs')
 REJECTS = ['invalid-name', 'invalid-module', 'different-object-same-name', 'unknown-in-list', 'both-lists']
-REJECT_TARGETS = ['function', 'class', 'class-with-registered-method']
+REJECT_TARGETS = ['function', 'class', 'class-with-registered-method', 'wrapped-function', 'class-with-wrapped-constructor',
+                  'class-inheriting-configurable-constructor']
 INTERACTIVE = ['context-manager', 'enter-exit', 'exit-by-exception', 'exit-by-KeyboardInterrupt', 'exit-by-SystemExit', 'exit-by-GeneratorExit']
 APIS = ['configurable', 'register', 'external']
 # dynamic registration (config text `import m` / `m.K.x = 3`) registers like gin.register; kinds reachable as a module attribute with a parameter
 DYNAMIC_KINDS = ('function', 'lambda', 'callable-instance', 'partial', 'cls-init', 'cls-new', 'cls-both', 'cls-meta', 'cls-slots', 'cls-namedtuple',
-                 'cls-typing-namedtuple', 'cls-abc', 'cls-methods', 'cls-helper-attr')
+                 'cls-typing-namedtuple', 'cls-abc', 'cls-methods', 'cls-helper-attr') + WRAPPED_KINDS
 ENABLE_DYNAMIC_REGISTRATION = True
 REQUIRED_BUCKETS = (['kind:' + k for k in KINDS] + ['api:configurable', 'api:register', 'api:external', 'form:decorator', 'form:call', 'override:name',
                     'override:module', 'override:dotted-name', 'path:returned', 'path:object', 'path:selector', 'path:scoped-selector', 'path:reference',
@@ -52,7 +58,8 @@ REQUIRED_BUCKETS = (['kind:' + k for k in KINDS] + ['api:configurable', 'api:reg
                     'interactive-target:class', 'interactive-api:configurable', 'interactive-api:external',
                     'reject:inside-interactive-mode', 'scoped-class-version:metadata', 'registered-method:through-registry-version',
                     'recheck:after-registry-use', 'recheck:inside-active-scope', 'metadata:non-function-callable', 'api:dynamic-registration'] +
-                    ['reject-target:' + t for t in REJECT_TARGETS])
+                    ['reject-target:' + t for t in REJECT_TARGETS] + ['reject-cell:unknown-in-list:%s:plain' % t for t in REJECT_TARGETS] +
+                    ['path:object-in-active-scope', 'lists:valid-allowlist', 'lists:valid-denylist'])
 ORACLE_COUNTERS = ['oracle_evals', 'registrations', 'rejections_checked']
 _n = itertools.count(1)
 _S = {}
@@ -85,10 +92,60 @@ class Spec:
     return tuple(self)[i]
 
 
-def make_original(kind, name):
-  """Returns a Spec (iterable as (original, param name or None, extract(result)->value of param, is_class, needs_explicit_name))."""
+def _traced(fn):
+  """An ordinary third-party style decorator: the result has the signature (*args, **kwargs) and links to `fn` through `__wrapped__`."""
+  @functools.wraps(fn)
+  def wrapper(*args, **kwargs):
+    return fn(*args, **kwargs)
+  return wrapper
+
+
+def _traced_by_hand(fn):
+  """The same without functools.wraps: metadata copied and `__wrapped__` set by hand."""
+  def wrapper(*args, **kwargs):
+    return fn(*args, **kwargs)
+  for a in ('__name__', '__qualname__', '__doc__', '__module__'):
+    setattr(wrapper, a, getattr(fn, a))
+  wrapper.__wrapped__ = fn
+  return wrapper
+
+
+def make_original(kind, name, variant=0):
+  """Returns a Spec (iterable as (original, param name or None, extract(result)->value of param, is_class, needs_explicit_name)).
+
+  `variant` varies what a shape leaves open (decorator depth and style, constructor of the inherited base)."""
   mod = _S['mod']
   g = mod.__dict__
+  g.setdefault('functools', functools)
+  g['traced'] = _traced if variant % 4 < 2 else _traced_by_hand
+  deco = '@traced\n' * (1 + variant % 2)
+  if kind == 'function-wrapped':
+    exec('%sdef %s(x=0, y="d"):\n  """doc of %s"""\n  return ("fw", x, y)\n' % (deco, name, name), g)
+    return Spec(g[name], 'x', lambda r: r[1], False, False)
+  if kind == 'lru-cache':      # a C-level callable object with __name__, __module__ and __wrapped__ (optionally over a decorated function)
+    exec('@functools.lru_cache(maxsize=None)\n%sdef %s(x=0, y="d"):\n  """doc of %s"""\n  return ("lru", x, y)\n' % (
+        deco if variant % 4 >= 2 else '', name, name), g)
+    return Spec(g[name], 'x', lambda r: r[1], False, False)
+  if kind == 'cls-init-wrapped':
+    ind = deco.replace('@', '  @')
+    exec('class %s:\n  """doc of %s"""\n%s  def __init__(self, x=0, y="d"):\n    self.x = x\n    self.y = y\n' % (name, name, ind), g)
+    return Spec(g[name], 'x', lambda r: r.x, True, False)
+  if kind == 'cls-new-wrapped':
+    ind = deco.replace('@', '  @')
+    exec('class %s:\n  """doc of %s"""\n%s  def __new__(cls, x=0, y="d"):\n    o = object.__new__(cls)\n    o.x = x\n    return o\n' % (name, name, ind), g)
+    return Spec(g[name], 'x', lambda r: r.x, True, False)
+  if kind == 'cls-inherits-configurable':
+    # the base class is @gin.configurable (Gin wrapped its constructor in place, nothing is bound for it); the class under test inherits that constructor
+    import gin
+    ctor = ('  def __init__(self, x=0, y="d"):\n    self.x = x\n' if variant % 2 == 0 else
+            '  def __new__(cls, x=0, y="d"):\n    o = object.__new__(cls)\n    o.x = x\n    return o\n')
+    exec('class %sBase:\n%s' % (name, ctor), g)
+    if variant % 4 < 2:
+      g[name + 'Base'] = gin.configurable(g[name + 'Base'])
+    else:
+      g[name + 'Base'] = gin.configurable('B' + name, module='c13.bases')(g[name + 'Base'])
+    exec('class %s(%sBase):\n  """doc of %s"""\n' % (name, name, name), g)
+    return Spec(g[name], 'x', lambda r: r.x, True, False)
   g.setdefault('abc', abc)
   g.setdefault('collections', collections)
   g.setdefault('typing', typing)
@@ -186,7 +243,10 @@ def snapshot(obj, is_class):
     return {k: v for k, v in vars(obj).items() if k != '__slotnames__'}, obj.__bases__, type(obj)
   if isinstance(obj, types.FunctionType):
     return dict(vars(obj)), obj.__code__, obj.__defaults__, obj.__kwdefaults__, obj.__name__, obj.__doc__
-  return (repr(type(obj)),)
+  try:
+    return repr(type(obj)), dict(vars(obj))     # a callable object: its own attributes (`__wrapped__` of an lru_cache wrapper among them)
+  except TypeError:
+    return (repr(type(obj)),)
 
 
 def snap_equal(a, b):
@@ -211,7 +271,8 @@ def iter_cases(ctx, rng, n):
            'reject_target': rng.choice(REJECT_TARGETS), 'reject_interactive': rng.random() < 0.4, 'reject_variant': rng.randrange(6),
            'interactive': rng.choice(INTERACTIVE + [None, None, None, None]),
            'interactive_api': rng.choice(APIS), 'interactive_target': rng.choice(['function', 'class']),
-           'again': rng.random() < 0.33, 'equal_callables': rng.random() < 0.5, 'dynamic': rng.random() < 0.2}
+           'again': rng.random() < 0.33, 'equal_callables': rng.random() < 0.5, 'dynamic': rng.random() < 0.2,
+           'shape_variant': rng.randrange(4), 'lists': rng.choice([None, None, None, None, 'allow', 'deny'])}
 
 
 def do_register(gin, api, form, orig, name, module, explicit_name, **lists):
@@ -245,7 +306,7 @@ def run_case(ctx, case):
   n = next(_n)
   kind, api = case['kind'], case['api']
   base = 'T%d_%s' % (n, ctx.uid)
-  spec = make_original(kind, base)
+  spec = make_original(kind, base, case.get('shape_variant', 0))
   orig, param, extract, is_class, explicit = spec
   call = spec.call
   ctx.bucket('kind:' + kind)
@@ -275,6 +336,16 @@ def run_case(ctx, case):
   orig_name, orig_doc, orig_mod = getattr(orig, '__name__', None), getattr(orig, '__doc__', None), getattr(orig, '__module__', None)
   orig_qual = getattr(orig, '__qualname__', None)
   orig_sig = sig_of(orig)
+  # a valid allow/deny list (naming real parameters only) accompanies the registration: accepted, and the bound parameter stays configurable
+  lists = {}
+  if case.get('lists') and param is not None and orig_sig is not None and kind not in UNSUBCLASSABLE:
+    names = [p for p in orig_sig.parameters if orig_sig.parameters[p].kind in (inspect.Parameter.POSITIONAL_OR_KEYWORD, inspect.Parameter.KEYWORD_ONLY)]
+    if case['lists'] == 'allow' and param in names:
+      lists = {'allowlist': [param]}
+      ctx.bucket('lists:valid-allowlist')
+    elif case['lists'] == 'deny' and [p for p in names if p != param]:
+      lists = {'denylist': [p for p in names if p != param][-1:]}
+      ctx.bucket('lists:valid-denylist')
   ctx.count('registrations')
   if kind in UNSUBCLASSABLE and api in ('register', 'external'):
     # a class that cannot be subclassed dynamically: registration may be refused, but must never fall back to altering the class
@@ -293,9 +364,10 @@ def run_case(ctx, case):
       return
   else:
     try:
-      ret = do_register(gin, api, case['form'], orig, name, module, explicit)
+      ret = do_register(gin, api, case['form'], orig, name, module, explicit, **lists)
     except Exception as e:  # pylint: disable=broad-except
-      ctx.check(False, 'registration-failed', 'gin.%s of a %s (%r) as %s raised %s: %s' % (api, kind, type(orig).__name__, full, type(e).__name__, str(e)[:200]))
+      ctx.check(False, 'registration-failed', 'gin.%s of a %s (%r) as %s %sraised %s: %s' % (
+          api, kind, type(orig).__name__, full, ('with %r ' % (lists,)) if lists else '', type(e).__name__, str(e)[:200]))
       return
   ctx.fp(kind, api, case['form'], case['name_override'], case['module_override'], tuple(sorted(case['paths'])), case['reject'], case['interactive'])
   ctx.sample({'kind': kind, 'api': api, 'registered_as': full, 'paths': case['paths']}, cap=4)
@@ -306,7 +378,12 @@ def run_case(ctx, case):
   if api in ('register', 'external') and not spec.shared:
     ctx.check(snap_equal(before, snapshot(orig, is_class)), 'registration-altered-original',
               '%s altered the %s it was given: %r -> %r' % (api, kind, before, snapshot(orig, is_class)))
-  conf = ret if api != 'register' else gin.get_configurable(orig)
+  try:
+    conf = ret if api != 'register' else gin.get_configurable(orig)
+  except Exception as e:  # pylint: disable=broad-except
+    ctx.check(False, 'registry-version-lookup-failed', 'after gin.register of a %s, gin.get_configurable(<the original object>) raised %s: %s' % (
+        kind, type(e).__name__, str(e)[:200]))
+    return
   if api == 'configurable' and not is_class:
     # name (when the original has one), docstring and signature (when the original has one)
     if kind not in ('function', 'lambda'):
@@ -350,25 +427,30 @@ def run_case(ctx, case):
         continue  # a scoped version needs a dynamic subclass, which these shapes forbid (outside the stated shapes)
       ctx.bucket('path:' + path)
       want = v_root
-      if path == 'returned':
-        if api == 'register':
-          continue
-        obj = ret
-      elif path == 'object':
-        obj = gin.get_configurable(orig if api != 'configurable' or not is_class else ret) if not spec.shared else gin.get_configurable(full)
-      elif path == 'selector':
-        obj = gin.get_configurable(full)
-      elif path == 'scoped-selector':
-        obj = gin.get_configurable('sc/ope/' + full)
-        want = v_scoped
-      elif path == 'reference':
-        gin.parse_config('c13cons.v = @%s' % full)
-        obj = _S['cons'].conf()[0:0] or probes.RECORDER.log[-1].received['v']
-      else:
-        gin.parse_config('c13cons.v = @sc/ope/%s' % full)
-        _S['cons'].conf()
-        obj = probes.RECORDER.log[-1].received['v']
-        want = v_scoped
+      if path == 'returned' and api == 'register':
+        continue
+      try:
+        if path == 'returned':
+          obj = ret
+        elif path == 'object':
+          obj = gin.get_configurable(orig if api != 'configurable' or not is_class else ret) if not spec.shared else gin.get_configurable(full)
+        elif path == 'selector':
+          obj = gin.get_configurable(full)
+        elif path == 'scoped-selector':
+          obj = gin.get_configurable('sc/ope/' + full)
+          want = v_scoped
+        elif path == 'reference':
+          gin.parse_config('c13cons.v = @%s' % full)
+          obj = _S['cons'].conf()[0:0] or probes.RECORDER.log[-1].received['v']
+        else:
+          want = v_scoped
+          gin.parse_config('c13cons.v = @sc/ope/%s' % full)
+          _S['cons'].conf()
+          obj = probes.RECORDER.log[-1].received['v']
+      except Exception as e:  # pylint: disable=broad-except
+        ctx.check(False, 'registry-version-lookup-failed', 'the registry version of a %s (%s) could not be reached via %s: %s: %s' % (
+            kind, api, path, type(e).__name__, str(e)[:200]))
+        continue
       if is_class:
         if want == v_scoped:
           ctx.bucket('scoped-class-version:metadata')
@@ -431,9 +513,21 @@ def run_case(ctx, case):
       ctx.check(direct == spec.direct, 'direct-call-received-injected-value',
                 'direct call of the original %s after its registry versions were used saw %r' % (kind, direct))
       ctx.bucket('recheck:inside-active-scope')
+      via_obj = None
       with gin.config_scope('sc/ope'):
         direct = extract(call(orig))
         inside = extract(call(conf))
+        if not spec.shared:
+          # the registry's version reached through the original object while a scope is active, called in that scope
+          ctx.bucket('path:object-in-active-scope')
+          try:
+            via_obj = extract(call(gin.get_configurable(orig)))
+          except Exception as e:  # pylint: disable=broad-except
+            via_obj = 'raised %s: %s' % (type(e).__name__, str(e)[:200])
+      if not spec.shared:
+        ctx.check(via_obj == spec.expect(v_scoped), 'registry-version-not-injected',
+                  'the registry version of a %s (%s) looked up through the original object and called inside the active scope sc/ope gave %r, bound value %r' % (
+                      kind, api, via_obj, spec.expect(v_scoped)))
       ctx.check(direct == spec.direct, 'direct-call-received-injected-value',
                 'direct call of the original %s inside the active scope sc/ope (which has a binding) saw %r' % (kind, direct))
       ctx.check(inside == spec.expect(v_scoped), 'registry-version-not-injected',
@@ -481,7 +575,7 @@ def run_case(ctx, case):
   if api in ('register', 'external') and kind not in UNSUBCLASSABLE and param is not None and case.get('again', n % 3 == 0):
     ctx.bucket('history:same-object-registered-again')
     try:
-      do_register(gin, api, case['form'], orig, name, module, explicit)
+      do_register(gin, api, case['form'], orig, name, module, explicit, **lists)
       again_ok = True
     except Exception as e:  # pylint: disable=broad-except
       again_ok = False
@@ -599,7 +693,7 @@ def run_case(ctx, case):
     dynamic_section(ctx, gin, kind, base)
 
 
-def make_target(tkind, tag):
+def make_target(tkind, tag, variant=0):
   """A fresh object no registration has seen: (target, is_class, selector of its registered method or None)."""
   if tkind == 'function':
     def target(x=0):
@@ -608,6 +702,12 @@ def make_target(tkind, tag):
     return target, False, None
   if tkind == 'class':
     return make_original('cls-init', 'TC' + tag).orig, True, None
+  if tkind == 'wrapped-function':
+    return make_original(('function-wrapped', 'lru-cache')[variant // 4 % 2], 'TW' + tag, variant).orig, False, None
+  if tkind == 'class-with-wrapped-constructor':
+    return make_original(('cls-init-wrapped', 'cls-new-wrapped')[variant // 4 % 2], 'TW' + tag, variant).orig, True, None
+  if tkind == 'class-inheriting-configurable-constructor':
+    return make_original('cls-inherits-configurable', 'TI' + tag, variant).orig, True, None
   return make_original('cls-methods', 'TM' + tag).orig, True, 'vfc13mod.meth_TM' + tag
 
 
@@ -642,7 +742,7 @@ def reject_product(ctx, gin, case, rej, base, full):
   if md is not None:
     kw = dict(kw, module=md)
   # one fresh target serves the three APIs: every rejected attempt must leave it as it was
-  target, t_is_class, msel = make_target(tkind, base)
+  target, t_is_class, msel = make_target(tkind, base, case.get('shape_variant', 0) + 4 * variant)
   t_before = snapshot(target, t_is_class)
   mfn = target.__dict__[msel.rsplit('.', 1)[1]] if msel else None
   for api in APIS:
@@ -860,12 +960,12 @@ def registry_view(gin, full, base):
   return view
 
 
-LEVEL_TEXT = ('Runtime monitor over the product (21 callable/class shapes x 3 registration APIs (+ config text under dynamic registration) x forms x '
+LEVEL_TEXT = ('Runtime monitor over the product (26 callable/class shapes x 3 registration APIs (+ config text under dynamic registration) x forms x '
               'name/module overrides x 6 access paths): '
               'identity/attribute snapshots of the original around registration and again after the registry versions were used, direct vs registry '
               'calls under root and scoped bindings (also inside an active scope), metadata and '
               'signature comparison (builtins, slot wrappers, callable instances, partials too), isinstance/issubclass/type identity of every class '
-              'version reached, pickle round trip, registry views around rejected registrations (5 kinds x 3 targets x 3 APIs, outside and inside '
+              'version reached, pickle round trip, registry views around rejected registrations (5 kinds x 6 targets x 3 APIs, outside and inside '
               'interactive mode) and around interactive-mode blocks left normally or by Exception / KeyboardInterrupt / SystemExit / GeneratorExit.')
 LEVEL_NOTE = 'Trusted: the per-shape source templates in this file. Only the shapes listed are covered; each case uses fresh names (the registry is append-only).'
 TECHNIQUE = 'runtime differential monitor (original vs registry version) over a product of callable shapes, APIs and access paths'
